@@ -49,9 +49,14 @@ static void puthex(const unsigned char *b, size_t n)
 
 static const char *tagtext;
 static const char *stringify(uint32_t tags) { (void)tags; return tagtext; }
+static int delivered;
 static void logger(int32_t t, struct qb_log_callsite *cs, struct timespec *ts, const char *msg)
 {
-	(void)t; (void)cs; (void)ts; (void)msg;
+	(void)t; (void)cs; (void)ts;
+	delivered++;
+	printf("msg ");
+	puthex((const unsigned char *)msg, strlen(msg));
+	putchar('\n');
 }
 
 #define NEXT strtok_r(NULL, " \n", &save)
@@ -140,6 +145,21 @@ int main(void)
 			tg->format = strdup("[%p] %b");
 			tg->max_line_length = QB_LOG_MAX_LEN;
 			tg->ellipsis = 0;
+		} else if (strcmp(cmd, "M") == 0) {
+			/* M <L> <priority> <msg>: a whole log call ("%s", msg) delivered to the custom target whose
+			 * max_line_length is L -> "msg <text handed to the logger>" per delivery, then "dlv <count>" */
+			size_t L = strtoull(NEXT, NULL, 0);
+			int prio = atoi(NEXT);
+			char *msg = unhex_str(NEXT, NULL);
+			tg->max_line_length = L;
+			delivered = 0;
+			qb_log_filter_ctl(t, QB_LOG_FILTER_ADD, QB_LOG_FILTER_FILE, "*", LOG_TRACE);
+			qb_log_ctl(t, QB_LOG_CONF_ENABLED, QB_TRUE);
+			qb_log_from_external_source("fn", "file.c", "%s", (uint8_t)prio, 10, 0, msg);
+			qb_log_ctl(t, QB_LOG_CONF_ENABLED, QB_FALSE);
+			printf("dlv %d\n", delivered);
+			tg->max_line_length = QB_LOG_MAX_LEN;
+			free(msg);
 		} else if (strcmp(cmd, "F") == 0) {
 			size_t L = strtoull(NEXT, NULL, 0);
 			char *fmt = unhex_str(NEXT, NULL);
